@@ -148,9 +148,24 @@ def release_idiom(prog, chk, rid, fams=tuple(FAMILIES), floor=12):
             if f.short == "clear":
                 for dn, obj in C.dtor_events(f):
                     rel.append((dn, "this->" + d["ptr"], "payload destructor"))
+            defs_ = q.local_defs(f)
+
+            def as_test(a0):
+                """the decrement test this atom stands for: the test itself, or a bool local every non-false definition of which is it
+                (`bool last = false; if(ref) last = Atomic::decrement(ref) == 0; if(last) delete ...`)"""
+                x0 = f.strip(a0)
+                if x0 in tests:
+                    return x0
+                n0 = f.nodes[x0]
+                if n0["k"] == "DeclRefExpr" and n0["ref"].get("dk") == "local":
+                    dl_ = [d_ for d_ in defs_.get(n0["ref"]["id"], []) if d_[2] is not None and d_[0] != "addr"]
+                    nz_ = [f.strip(d_[2]) for d_ in dl_ if not q.is_zero(f, d_[2])]
+                    if nz_ and all(z in tests for z in nz_) and len(set(tests[z] for z in nz_)) == 1:
+                        return nz_[0]
+                return None
             for i, t, kind in rel:
                 atoms = fin.dominating_atoms(f, f.node_pos(i))
-                ok = any(a[0] in tests and a[1] and same_obj(tests[a[0]], t) for a in atoms if a[0] != "case")
+                ok = any(a[1] and as_test(a[0]) is not None and same_obj(tests[as_test(a[0])], t) for a in atoms if a[0] != "case")
                 if ok:
                     chk.ok(rid, f, "%s of %s under decrement == 0" % (kind, t), f.where(i), "true edge of the decrement test dominates", evals=len(atoms) or 1)
                 else:
